@@ -748,11 +748,17 @@ class GaborFilterBank(LinearFilterBank):
             if scale_l2_norm:
                 diff_ang = np.sqrt(log_std + f_support_const) / std
                 wrap_diff_ang = np.sqrt(log_std + f_support_const + log_2) / std
-                diff_samps = int(np.ceil(std * np.sqrt(t_support_const - log_std)))
+                diff_samps = int(
+                    np.ceil(std * np.sqrt(max(t_support_const - log_std, 0)))
+                )
             else:
                 diff_ang = np.sqrt(f_support_const) / std
                 wrap_diff_ang = np.sqrt(f_support_const + log_2) / std
-                diff_samps = int(np.ceil(std * np.sqrt(t_support_const - 2 * log_std)))
+                # a filter so narrow that its envelope peaks below the threshold has an
+                # empty effective support
+                diff_samps = int(
+                    np.ceil(std * np.sqrt(max(t_support_const - 2 * log_std, 0)))
+                )
             supp_ang_low = center_ang - diff_ang
             if supp_ang_low < 0:
                 self._wrap_below = True
